@@ -31,7 +31,8 @@ func init() {
 // ---------------------------------------------------------------- abstract programs (mirror of coq/Init/Model.v)
 
 type c15Ref struct {
-	K     byte // 'V' variable, 'F' function/method, 'X' identifier spelled like a variable that denotes something else
+	K byte // 'V' variable, 'F' function/method, 'X' identifier spelled like a variable that denotes something else,
+	// 'N' noise: the field name of a selector spelled like a variable (s7{}.v7): no dependency for yaegi nor for Go, absent from the model
 	ID    int
 	Style int  // rendering variant
 	Guard bool // inside a function body: placed under `if false`
@@ -178,7 +179,7 @@ func (p *c15Pkg) yNodes() []c15Node {
 		for _, in := range s.Inits {
 			n.Logs = append(n.Logs, in.Log)
 			for _, r := range in.Refs {
-				if r.K == 'F' {
+				if r.K == 'F' || r.K == 'N' {
 					continue
 				}
 				if g, first, ok := p.lookup(r.ID); ok && g && first != n.ID {
@@ -258,7 +259,7 @@ func (p *c15Pkg) declSorted() bool {
 	for _, s := range p.Specs {
 		for _, in := range s.Inits {
 			for _, r := range in.Refs {
-				if r.K != 'F' && !seen[r.ID] {
+				if (r.K == 'V' || r.K == 'X') && !seen[r.ID] {
 					return false
 				}
 			}
@@ -581,6 +582,9 @@ func (g *c15Gen) body(mode c15Mode, nSpecs int) *c15Pkg {
 				in.Refs = append(in.Refs, c15Ref{K: 'X', ID: cands[r.intn(len(cands))], Style: r.intn(2)})
 			}
 		}
+		if r.chance(12) {
+			in.Refs = append(in.Refs, c15Ref{K: 'N', ID: allVars[r.intn(len(allVars))]})
+		}
 		// shuffle the argument order
 		for i := len(in.Refs) - 1; i > 0; i-- {
 			j := r.intn(i + 1)
@@ -859,6 +863,8 @@ func (p *c15Pkg) refExpr(r c15Ref) string {
 			return fmt.Sprintf("func() int { return v%d }()", r.ID)
 		}
 		return fmt.Sprintf("v%d", r.ID)
+	case 'N':
+		return fmt.Sprintf("s%d{}.v%d", r.ID, r.ID)
 	case 'X':
 		if r.Style == 1 {
 			return fmt.Sprintf("s%d{v%d: 1}.v%d", r.ID, r.ID, r.ID)
@@ -954,7 +960,7 @@ func (p *c15Pkg) files(prefix string) map[string]string {
 			for _, s := range p.Specs {
 				for _, in := range s.Inits {
 					for _, r := range in.Refs {
-						if r.K == 'X' && r.Style == 1 && !structs[r.ID] {
+						if (r.K == 'X' && r.Style == 1 || r.K == 'N') && !structs[r.ID] {
 							structs[r.ID] = true
 							fmt.Fprintf(&b, "type s%d struct{ v%d int }\n", r.ID, r.ID)
 						}
@@ -1046,9 +1052,11 @@ func c15CoqIDs(l []int) string {
 }
 
 func c15CoqRefs(rs []c15Ref) string {
-	it := make([]string, len(rs))
-	for i, r := range rs {
-		it[i] = fmt.Sprintf("R%c %d", r.K, r.ID)
+	var it []string
+	for _, r := range rs {
+		if r.K != 'N' {
+			it = append(it, fmt.Sprintf("R%c %d", r.K, r.ID))
+		}
 	}
 	return coqList(it)
 }
@@ -1177,7 +1185,7 @@ func runC15(args []string) error {
 	if err := os.MkdirAll(*out, 0o755); err != nil {
 		return err
 	}
-	n := 420
+	n := 600
 	if *tier == "thorough" {
 		n = 20000
 	}
